@@ -16,7 +16,7 @@ from harness import workerh as H
 NT = tier(3, 4)                # tasks in the script
 SIGNUMS = sorted(n for n in (bc.signum(s) for s in bc.TERMSIGS_FULL) if n)
 MAXPOINT = 36 * (NT - 1)
-KSYN = tier(1, 2)
+KSYN = tier(1, 1)
 SILENT = tier(0, 1)
 SLOW = tier(70, 130)            # silent SYN polls before the parent's answer in h_synack_slow (the loop logs at 60)
 
@@ -119,6 +119,8 @@ def _protocol(kinds, maxtasks, syn, silence, consumed, mem, want):
         return fail('C09:guard-not-waited-out')
     if want == 'nack' and nacked and ran < n:
         return False
+    if want == 'nack' and not nacked and NPART == 16 and PART == 0:
+        return False        # the one part in which every answer is ACK: its witness is a completed run
     if want == 'recycle' and code == bp.EX_RECYCLE:
         return False
     return True
@@ -289,7 +291,8 @@ def h_memlimit(code: int) -> bool:
         kinds = [nd.draw(0, 2)] + [0] * (NT - 1)          # the memory check follows every completed task, whatever its outcome
         maxtasks = NT * nd.draw(0, 1)
         mem = [MEMS[nd.draw(0, len(MEMS) - 1)] for _ in range(NT)]
-        return _protocol(kinds, maxtasks, None, None, NT, mem, None)
+        consumed = nd.draw(0, NT)          # how many of this worker's results the parent has consumed when the loop is left
+        return _protocol(kinds, maxtasks, None, None, consumed, mem, None)
     except Prune:
         return True
 
@@ -565,3 +568,80 @@ def h_after_fork(code: int) -> bool:
     if not (inq._writer.closed and outq._reader.closed):
         return fail('C08:after-fork-does-not-close-the-parent-ends')
     return True
+
+
+# ---------------------------------------------------------------------------
+# parent side of the handshake on the job handle itself: ApplyResult._ack / _set
+
+def _parent_ack(code, want):
+    nd = NDCode(code)
+    synack = nd.flag()                 # the pool was built with the acknowledgement handshake (the handle has a send_ack)
+    cancelled = nd.flag()              # _cancel() was called before the worker's ACK is processed
+    has_cb = nd.flag()
+    fd = (None, 8)[nd.draw(0, 1)] if synack else None          # the worker's SYN pipe as announced in its ACK
+    late = nd.flag()                   # the ACK is processed after the result (a message order the result handler can see)
+    cache = {}
+    sent = []
+    events = []
+
+    def send_ack(resp, pid, job, fd_):
+        sent.append((resp, pid, job, fd_))
+    r = bp.ApplyResult(cache, lambda v: events.append(('result', v)),
+                       accept_callback=(lambda pid, t: events.append(('accept', pid, t))) if has_cb else None,
+                       send_ack=send_ack if synack else None)
+    job = r._job
+    if cancelled:
+        r._cancel()
+    refused = synack and cancelled
+    if want:
+        return not refused
+    if late and not refused:
+        r._set(None, (True, 'v'))
+        r._ack(None, 123, 4242, fd)
+    else:
+        r._ack(None, 123, 4242, fd)
+        if not refused:
+            r._set(None, (True, 'v'))
+    if refused:
+        # "a job cancelled before acceptance is refused": NACK to the worker that asked, no acceptance recorded as a running job
+        if sent != ([(bp.NACK, 4242, job, fd)] if fd else []):
+            return fail('C03:parent:cancelled-job-not-refused-with-NACK')
+        if ('accept', 4242, 123) in events:
+            return fail('C03:parent:accept-callback-for-a-refused-job')
+        return True
+    # every other job a worker takes: accepted, owner and acceptance time recorded, accept callback before the result callback
+    if r.worker_pids() != [4242] or r._time_accepted != 123 or not r._accepted:
+        return fail('C03:parent:owner-or-acceptance-time-not-recorded' + (':cancel-flag-without-handshake' if cancelled else ''))
+    exp = ([('accept', 4242, 123)] if has_cb else [])
+    exp = (exp + [('result', 'v')]) if not late else ([('result', 'v')] + exp)
+    if events != exp:
+        return fail('C03:parent:accept-and-result-callbacks' + (':cancel-flag-without-handshake' if cancelled else ''))
+    if synack and fd and sent != [(bp.ACK, 4242, job, fd)]:
+        return fail('C03:parent:ACK-not-confirmed-to-the-worker')
+    if not synack and sent:
+        return fail('C03:parent:handshake-answer-without-handshake')
+    if job in cache:
+        return fail('C01:resolved-job-still-in-the-cache')
+    return True
+
+
+def h_parent_ack(code: int) -> bool:
+    """
+    pre: 0 <= code < CODEMAX
+    post: _
+    """
+    try:
+        return _parent_ack(code, False)
+    except Prune:
+        return True
+
+
+def h_parent_ack_twin(code: int) -> bool:
+    """
+    pre: 0 <= code < CODEMAX
+    post: _
+    """
+    try:
+        return _parent_ack(code, True)
+    except Prune:
+        return True
